@@ -45,7 +45,7 @@
     assumed specification. *)
 From Gnmi Require Import Base.Prelude CTree.CTreeModel CTree.CTreeConc CTree.CTreeConcProofs
   CTree.CTreeConcAbs CTree.CTreeConcDel.
-From Gnmi Require Subscribe.SubModel Subscribe.SubProofs.
+From Gnmi Require Subscribe.SubModel Subscribe.SubProofs CTree.CTreeProofs.
 Open Scope list_scope.
 
 Module SM := SubModel.
@@ -292,7 +292,7 @@ Theorem lts_walk_is_conc_walk nu hist names pf subs ups :
 Proof.
   induction 1 as [|sp full r parts rest Hc Hq _ IH]; [constructor|].
   econstructor; [exact Hc| |exact IH].
-  eapply Forall2_impl_glue; [|exact Hq]. intros t l. apply (ctree_query_run_weak nu).
+  exact (Forall2_impl_glue _ _ _ _ (fun t l H => ctree_query_run_weak nu _ _ _ H) Hq).
 Qed.
 
 (** C05's conclusion without the assumed specification *)
@@ -307,4 +307,75 @@ Theorem once_weak_from_ctree_lts nu hist names pf subs ups :
         (forall tr, In tr (SPf.trees_of hist t) -> lookup tr p <> None) ->
         exists n c tr, In (SM.RUpd n) ups /\ In c hist /\ assoc t c = Some tr /\ lookup tr p = Some n)
   /\ ~ In SM.RSync ups.
-Proof. intros H. apply SPf.once_weak_partial. now apply lts_walk_is_conc_walk. Qed.
+Proof. intros H. apply SPf.once_weak_partial. exact (lts_walk_is_conc_walk nu _ _ _ _ _ H). Qed.
+
+(** * Non-vacuity: a run of the LTS, its history, the walk *)
+
+Fixpoint run_states (s : state) (sch : list nat) (acc : list state) : list state * state :=
+  match sch with
+  | [] => (acc, s)
+  | i :: r => match step s i with
+              | Some s' => run_states s' r (s' :: acc)
+              | None => (acc, s)
+              end
+  end.
+
+Lemma run_states_lrun sch : forall s1 l s,
+  lrun s1 l s -> lrun s1 (fst (run_states s sch l)) (snd (run_states s sch l)).
+Proof.
+  induction sch as [|i r IH]; intros s1 l s H; [exact H|]. cbn [run_states].
+  destruct (step s i) as [s'|] eqn:E; [|exact H]. apply IH. econstructor; eauto.
+Qed.
+
+Definition ex_ops : list cop := [CAdd ["a"%string] 5; CQuery ["a"%string] None].
+(** thread 0 adds a = 5 and returns; thread 1 has not started *)
+Definition ex_s1 : state := run_sched (init_state ex_ops) (repeat 0%nat 12).
+Definition ex_run := run_states ex_s1 (repeat 1%nat 20) [ex_s1].
+
+Definition ex_nu (z : Z) : SM.noti := SM.NT z (SM.GP "dev" "" []) [(SM.GP "" "" [("a"%string, [])], z)] [] false.
+Definition ex_tr : tree SM.noti := Some (Branch [("a"%string, Leaf (ex_nu 5))]).
+
+Lemma absf_single h n :
+  get_cont h 0 = CBranch [("a"%string, n)] -> get_cont h n = CLeaf 5 ->
+  forall p, absf h p = if path_eqb p ["a"%string] then Some 5%Z else None.
+Proof.
+  intros H0 Hn p. unfold absf. destruct p as [|k r]; cbn [resolve path_eqb].
+  - rewrite H0. reflexivity.
+  - rewrite H0. cbn [assoc fst snd]. destruct (String.eqb k "a"); cbn [andb]; [|reflexivity].
+    destruct r as [|k2 r]; cbn [resolve path_eqb].
+    + now rewrite Hn.
+    + now rewrite Hn.
+Qed.
+
+Lemma ex_rep s :
+  get_cont (hp s) 0 = CBranch [("a"%string, 1%nat)] -> get_cont (hp s) 1 = CLeaf 5 -> rep ex_nu ex_tr s.
+Proof.
+  intros H0 H1 p. rewrite (absf_single _ _ H0 H1). unfold ex_tr. cbn [lookup].
+  destruct p as [|k r]; [reflexivity|]. rewrite CTreeProofs.lookup_branch_cons. cbn [assoc fst snd path_eqb].
+  destruct (String.eqb k "a"); cbn [andb]; [|reflexivity].
+  destruct r as [|k2 r]; reflexivity.
+Qed.
+
+Example ex_query_run :
+  ctree_query_run ex_nu [ex_tr] ["a"%string] [(["a"%string], ex_nu 5)].
+Proof.
+  exists ex_ops, ex_s1, (fst ex_run), (snd ex_run), 1%nat.
+  eexists _, _, [(["a"%string], 5%Z)].
+  split; [reflexivity|]. split; [apply reach_run_sched|].
+  split; [apply run_states_lrun; constructor|].
+  split; [vm_compute; reflexivity|]. split; [reflexivity|].
+  split; [vm_compute; reflexivity|]. split; [reflexivity|]. split; [reflexivity|].
+  intros s Hs. exists ex_tr. split; [now left|].
+  assert (F : Forall (fun s => get_cont (hp s) 0 = CBranch [("a"%string, 1%nat)] /\ get_cont (hp s) 1 = CLeaf 5)
+                     (fst ex_run)) by (vm_compute; repeat constructor).
+  rewrite Forall_forall in F. destruct (F s Hs). now apply ex_rep.
+Qed.
+
+Example ex_lts_walk :
+  lts_walk ex_nu [[("dev"%string, ex_tr)]] ["dev"%string] (Some (SM.GP "dev" "" []))
+           [Some (SM.GP "" "" [("a"%string, [])])] [SM.RUpd (ex_nu 5)].
+Proof.
+  apply (lw_cons ex_nu _ _ _ _ ["a"%string] [] [[(["a"%string], ex_nu 5)]] []);
+    [reflexivity| |constructor].
+  constructor; [exact ex_query_run|constructor].
+Qed.
